@@ -90,6 +90,7 @@ type histRun struct {
 	hid  int
 	step int
 	presented map[string]bool // refresh-token values the provider has answered in this history
+	refusedSid string         // the provider has refused (4xx) the refresh token of this session and has not granted anything since
 }
 
 func runHist(c *ctx) {
@@ -167,6 +168,7 @@ func (h *histRun) login(q string) bool {
 	h.s.idp.mu.Unlock()
 	_, err := h.s.login(h.b, h.srv, h.sb, q)
 	h.gen = 0
+	h.refusedSid = ""
 	h.c.count("op:login")
 	if err != nil {
 		h.c.count("login-failed")
@@ -542,8 +544,17 @@ func (h *histRun) opSession(op string) {
 			}
 		}
 	}
+	// was this step served although the provider had REFUSED this session's refresh token earlier and was not even asked again?
+	preSid := ""
+	if pre.d != nil {
+		preSid = pre.d.ExternalSessionID
+	}
+	afterRefusal := h.refusedSid != "" && h.refusedSid == preSid
 	if granted > 0 {
 		h.gen++
+		h.refusedSid = ""
+	} else if contacted > 0 && plan == "client" && preSid != "" {
+		h.refusedSid = preSid
 	}
 	upAuth, upID := "-", "-"
 	nAuthVals := 0
@@ -607,7 +618,7 @@ func (h *histRun) opSession(op string) {
 	kv := []any{"hid", h.hid, "i", h.step, "mode", hc.modeNum(), "cfwd", hc.forwardAuth, "inact", hc.inactivity, "maxlife", hc.maxLifetime, "acr", hx(hc.acr),
 		"idtok", hc.idTok, "autologin", hc.autoLogin,
 		"op", op, "now", now, "ck", pre.ck, "plan", plan, "secs", expiresIn,
-		"newat", hx(fmt.Sprintf("at%d", h.genNext(pre))), "newrt", hx(map[bool]string{true: "", false: fmt.Sprintf("rt%d", h.genNext(pre))}[noNewRT]), "dup", dup,
+		"newat", hx(fmt.Sprintf("at%d", h.genNext(pre))), "newrt", hx(map[bool]string{true: "", false: fmt.Sprintf("rt%d", h.genNext(pre))}[noNewRT]), "dup", dup, "afterrefusal", afterRefusal,
 		"lag", int64(h.s.lag), "ignored", ignored, "nav", nav, "cauth", clientAuth != "", "cid", clientID != "", "hop", hop, "sidmatch", sidMatch}
 	kv = append(kv, h.stFields("", pre)...)
 	kv = append(kv, "status", resp.Status, "fwd", len(ups) > 0, "upauth", upAuth, "nauth", nAuthVals, "upid", upID, "contacted", contacted, "granted", granted,
